@@ -410,6 +410,31 @@ def z2_sound(F, R, M, roles):
             n += 1
             R.check(ok, 'Z2', 'sound:%s:response-check' % b['name'], site(sg, c), 'response compared with the Ok status before success is reported',
                     'sound operation %s reports success without comparing the response status with Ok' % b['name'])
+        # polarity (loop-free operations): success is reported on the *equal* edge of the comparison with the Ok status
+        if calls and not back_edges(sg):
+            try:
+                okp = [p for p in PathEnum(sg).run() if not p.panicked and err_variant(p.ret) == 'Ok']
+            except PathLimit:
+                okp = []
+            wrong = None
+            for p in okp:
+                for c_ in p.conds:
+                    d = c_[0]
+                    is_cmp = (d[0] == 'bin' and d[1] in ('Eq', 'Ne')) or (d[0] == 'call' and d[2] in ('core::cmp::PartialEq::eq', 'core::cmp::PartialEq::ne'))
+                    if not is_cmp or not any(x[0] == 'call' and x[2] in req for x in subterms(d)):
+                        continue
+                    sides = [d[2], d[3]] if d[0] == 'bin' else list(d[3])
+                    other = [sd for sd in sides if not any(x[0] == 'call' and x[2] in req for x in subterms(sd))]
+                    if not other or not any((x[0] == 'const' and x[1] == 0x8000) or (x[0] == 'agg' and ('SndHdr' in x[1] or 'RequestStatusCode' in x[1] or 'CommandCode' in x[1]))
+                                            for sd in other for x in subterms(sd)):
+                        continue
+                    truth = (c_[1][0] == 'notin' and 0 in c_[1][1]) or (c_[1][0] == 'in' and 0 not in c_[1][1])
+                    eq = (d[0] == 'bin' and d[1] == 'Eq') or (d[0] == 'call' and d[2].endswith('::eq'))
+                    if eq != truth:
+                        wrong = fmt(d)[:80]
+            if okp:
+                R.check(wrong is None, 'Z2', 'sound:%s:response-polarity' % b['name'], fn_site(F, b['id']), 'success only on the edge where the response equals Ok',
+                        'sound operation %s reports success when the response status differs from Ok (and an error when it is Ok): %s' % (b['name'], wrong))
         if b['name'] == 'pcm_set_params':
             # parameters recorded only after the Ok comparison
             st = [x for x in sg.nodes if x.kind == 'assign' and x.d['place']['p'] and x.id in live and 'PcmParameters' in x.d.get('pty', '')]
@@ -861,6 +886,14 @@ def z6_edid(F, R):
                         x[2], x[5] = 1, 1
                         x[i] = v
                         samples.append(x)
+                # exactly one of the two active sizes zero: not a timing descriptor either
+                for i in (2, 5):
+                    x = [0] * 18
+                    x[i] = 0x40
+                    samples.append(x)
+                    x = [0] * 18
+                    x[i + 2] = 0x30
+                    samples.append(x)
                 for x in samples:
                     rows += 1
                     got = run(x)
